@@ -510,6 +510,53 @@ def run_typechange(out):
                     break
     out["samples"].append({"type_changing_hooks": [r[0] for r in TYPECHANGE_REQUESTS]})
     harness.forget(name)
+    run_null_replacing(out)
+
+
+class OrDefault:
+    """a type-level output hook that replaces null by a default: what it returns is what the non-null check and serialisation see"""
+
+    async def on_pre_output_coercion(self, directive_args, next_directive, value, ctx, info):
+        harness.scenario_of(ctx).events.append(("orDefault", repr(value)))
+        return await next_directive(directive_args["v"] if value is None else value, ctx, info)
+
+
+NULLS_SDL = """
+directive @orDefault(v: String!) on SCALAR | ENUM | OBJECT
+scalar Lbl @orDefault(v: "n/a")
+enum Mood @orDefault(v: "CALM") { CALM WILD }
+type Query { lbl: Lbl! opt: Lbl lbls: [Lbl!] mood: Mood! moods: [Mood!]! }
+"""
+
+
+def run_null_replacing(out):
+    name = harness.fresh_name("c13null")
+    Directive("orDefault", schema_name=name)(OrDefault())
+    Scalar("Lbl", schema_name=name)(TagScalar())
+    values = {"lbl": None, "opt": None, "lbls": ["a", None, "b"], "mood": None, "moods": [None, "WILD"]}
+    for f, v in values.items():
+        def mk(v):
+            async def r(parent, args, ctx, info):
+                return list(v) if isinstance(v, list) else v
+            return r
+        Resolver("Query." + f, schema_name=name)(mk(v))
+    eng = harness.run(create_engine(NULLS_SDL, schema_name=name))
+    want = {"lbl": "out:n/a", "opt": "out:n/a", "lbls": ["out:a", "out:n/a", "out:b"], "mood": "CALM", "moods": ["CALM", "WILD"]}
+    calls = {"lbl": ["None"], "opt": ["None"], "lbls": ["'a'", "None", "'b'"], "mood": ["None"], "moods": ["None", "'WILD'"]}
+    for f in values:
+        for rnd in range(2):
+            scn = Scenario(root={})
+            resp = harness.execute(eng, "{ %s }" % f, scn)
+            out["counts"]["evaluations"] += 1
+            saw = [e[1] for e in scn.events if isinstance(e, tuple) and e[0] == "orDefault"]
+            if resp.get("errors") or (resp.get("data") or {}).get(f) != want[f] or sorted(saw) != sorted(calls[f]):
+                out["violations"].append({
+                    "signature": "stage-did-not-see-what-the-previous-hook-returned|null-replaced-by-type-output-hook|%s" % f,
+                    "summary": "type-level output hook replacing null: { %s } -> %r, hook saw %r; expected %r with hook calls %r"
+                               % (f, resp, saw, want[f], calls[f]),
+                    "replay": {"typechange": True}})
+                break
+    harness.forget(name)
 
 
 def run_shard(item):
